@@ -1566,9 +1566,9 @@ class Executor:
     def exec_While(self, st, path):
         spec = self.loop_spec_or_trivial(st)
         k = self.loop_ids.get(id(st))
-        self._check_inv(path, spec, k, "entry")
+        self._check_inv(path, spec, k, "entry", at_entry=path.snapshot())
         entry = self._havoc_for_loop(path, st.body + [st.test], spec)
-        self._assume_inv(path, spec)
+        self._assume_inv(path, spec, at_entry=entry)
         if not path.feasible():
             return []
         out = []
@@ -1580,7 +1580,7 @@ class Executor:
                 if bv:
                     for p3, oc in self.exec_block(st.body, p2):
                         if isinstance(oc, (Norm, Cont)):
-                            self._check_inv(p3, spec, k, "preserved", entry=entry)
+                            self._check_inv(p3, spec, k, "preserved", entry=entry, at_entry=entry)
                             self.run.paths_explored += 1
                         elif isinstance(oc, Brk):
                             out.append((p3, NORM))
@@ -1638,6 +1638,10 @@ class Executor:
             if base == "deque":
                 arr, h, t = path.sel("deque.arr", v.e), path.sel("deque.head", v.e), path.sel("deque.tail", v.e)
                 return (lambda k2, arr=arr, h=h: z3.Select(arr, h + k2)), t - h, (targs[0] if targs else "Val")
+            if base == "iter":
+                # the not-yet-consumed items of an iterator object
+                arr, pos, n = path.sel("iter.arr", v.e), path.sel("iter.pos", v.e), path.sel("iter.len", v.e)
+                return (lambda k2, arr=arr, pos=pos: z3.Select(arr, pos + k2)), n - pos, (targs[0] if targs else "Val")
             if base == "set":
                 # iteration order of a set is unspecified: some enumeration of its members
                 has = path.sel("set.has", v.e)
@@ -1689,11 +1693,11 @@ class Executor:
         spec = self.loop_spec_or_trivial(st)
         k = self.loop_ids.get(id(st))
         path.assume(n >= 0)
-        self._check_inv(path, spec, k, "entry", i=z3.IntVal(0), n=n, seq=elem)
+        self._check_inv(path, spec, k, "entry", i=z3.IntVal(0), n=n, seq=elem, at_entry=path.snapshot())
         entry = self._havoc_for_loop(path, st.body, spec, extra_names=_target_names(st.target))
         i = fresh("i", Int)
         path.assume(i >= 0, i <= n)
-        self._assume_inv(path, spec, i=i, n=n, seq=elem)
+        self._assume_inv(path, spec, i=i, n=n, seq=elem, at_entry=entry)
         if not path.feasible():
             return []
         out = []
@@ -1703,7 +1707,7 @@ class Executor:
                 for p1, oc1 in self.assign(p, st.target, item):
                     for p2, oc in self.exec_block(st.body, p1):
                         if isinstance(oc, (Norm, Cont)):
-                            self._check_inv(p2, spec, k, "preserved", entry=entry, i=i + 1, n=n, seq=elem)
+                            self._check_inv(p2, spec, k, "preserved", entry=entry, i=i + 1, n=n, seq=elem, at_entry=entry)
                             self.run.paths_explored += 1
                         elif isinstance(oc, Brk):
                             if isinstance(et, tuple):
